@@ -177,7 +177,7 @@ def mutate_inventory(inv, rng):
 def mutate_structure(obj, rng):
     """odd directory structures; returns description"""
     k = rng.choice(["inv-dir", "ver-file", "content-file", "symloop", "fifo-content", "fifo-inv", "sidecar", "namaste", "deep", "manyfiles", "symlink-root-inv",
-                    "inv-transplant", "inv-transplant", "inv-mutant-in-version"])
+                    "inv-transplant", "inv-transplant", "inv-mutant-in-version", "inv-other-algorithm", "inv-other-algorithm"])
     inv = valprop.inv_of(obj)
     head = inv["head"]
     cdir = inv.get("contentDirectory", "content")
@@ -254,6 +254,39 @@ def mutate_structure(obj, rng):
                 valprop.rewrite_inventory(os.path.join(obj, v), None, alg=alg, raw=bytes(val))
             else:
                 valprop.rewrite_inventory(os.path.join(obj, v), val, alg=alg)
+            k += ":%s:%s" % (v, what)
+    elif k == "inv-other-algorithm":
+        # an earlier version's inventory re-written under the other digest algorithm (digests recomputed from the content
+        # files), optionally with one of the inventory mutations on top: the cross-algorithm comparison paths of the validator
+        vs = sorted(v for v in inv["versions"] if v != head and os.path.isfile(os.path.join(obj, v, "inventory.json")))
+        if vs:
+            import hashlib
+            v = rng.choice(vs)
+            vinv = json.load(open(os.path.join(obj, v, "inventory.json")))
+            other = "sha256" if vinv.get("digestAlgorithm") == "sha512" else "sha512"
+            conv = {}
+            for d, ps in vinv.get("manifest", {}).items():
+                fp = os.path.join(obj, ps[0]) if ps else None
+                conv[d] = hashlib.new(other, open(fp, "rb").read()).hexdigest() if fp and os.path.isfile(fp) else hashlib.new(other, d.encode()).hexdigest()
+            vinv["digestAlgorithm"] = other
+            vinv["manifest"] = {conv[d]: ps for d, ps in vinv["manifest"].items()}
+            for blk in vinv["versions"].values():
+                blk["state"] = {conv.get(d, d): ps for d, ps in blk["state"].items()}
+            vinv.pop("fixity", None)
+            what = "plain"
+            c = rng.random()
+            if c < 0.3 and vinv["manifest"]:
+                vinv["manifest"][rng.choice(sorted(vinv["manifest"]))] = []; what = "empty-manifest-entry"
+            elif c < 0.6:
+                what, val = mutate_inventory(vinv, rng)
+                if not isinstance(val, (bytes, bytearray)):
+                    vinv = val
+                else:
+                    what = "plain"
+            for f in os.listdir(os.path.join(obj, v)):
+                if f.startswith("inventory.json."):
+                    os.unlink(os.path.join(obj, v, f))
+            valprop.rewrite_inventory(os.path.join(obj, v), vinv, alg=other)
             k += ":%s:%s" % (v, what)
     elif k == "symlink-root-inv":
         os.unlink(os.path.join(obj, "inventory.json")); os.symlink("/dev/zero" if rng.random() < 0.3 else "nonexistent", os.path.join(obj, "inventory.json"))
